@@ -28,14 +28,18 @@ PROPS["C07"] = {
 
 PROPS["C01"] = {
     "title": "Pacers keep the hit count on their declared schedule in closed loop",
-    "units": [{"name": "pacer", "pkg": "lib", "run": "^TestC01"}],
+    "units": [{"name": "pacer", "pkg": "lib", "run": "^TestC01"},
+              {"name": "attackloop", "pkg": "libsync", "go": "go1.26.8", "run": "^TestC01AttackLoop", "shards_quick": 2, "shards_thorough": 8}],
     "rule": "Four rapid sub-checks against a reference schedule S(t) written from the documented formulas: "
             "(totality) any int/float parameter values incl. range extremes, NaN/Inf, any elapsed/hits: no panic and "
             "the documented sign rules; (const-exact) constant pacer point-wise with big-integer arithmetic incl. the "
             "overflow boundary; (trajectory) closed-loop virtual-time simulations of 60..2000 (thorough 20000) "
             "consecutive Pace calls with generated stall histories for constant, sine (amp/mean up to 0.9999) and "
             "linear (positive/negative slope) pacers, invariants P1 never-early, P2 catch-up, P3 never-late after "
-            "every step; (rate) Rate() equals the declared instantaneous rate. Non-trivial trajectory = >= 50 "
+            "every step; (rate) Rate() equals the declared instantaneous rate; (attackloop) the real "
+            "Attacker.Attack loop, run in a testing/synctest bubble (virtual clock, unlimited workers) with the real "
+            "pacer values for a drawn virtual duration, must keep the count observed at the transport on the same "
+            "reference schedule. Non-trivial trajectory = >= 50 "
             "releases with >= 1 positive wait and, for stall runs, >= 1 catch-up release; distinct = distinct case.",
     "explanation": "P1: count after a release <= S(r + q) + 1; P2: positive wait only if S(now) < hits+1; P3 (constant, "
                    "sine): S(r - q) - hits <= 1 whenever the pacer chose the instant; q = (hits+1) ns is the statement's "
